@@ -21,6 +21,11 @@
  *                         r<i>=<jv> replace element i (ignored when i >= length)
  *                 object  A<hexkey|->=<jv> add a member / replace the value of an existing one
  *                         X<hexkey|-> delete a member
+ *                 S     (carried out during the SECOND call on the container at PATH, when it is a
+ *                       member of an object): remove this very member from its parent with
+ *                       json_object_object_del(parent, key).  The visitor has saved the next member
+ *                       before the call, so the traversal goes on with the next sibling; positions
+ *                       are counted in the parent as it is at the time of each call.
  *               json_visit.c looks at a container (type, length, member table) only after the
  *               first call on it, so the members visited are those it has after that call.
  *
@@ -183,7 +188,8 @@ static void reindex(void)
 }
 
 /* carry out the edits addressed to the container `jso` (entry e); returns 1 when the tree changed */
-static int do_edits(struct trav *me, struct json_object *jso, long e)
+static int do_edits(struct trav *me, struct json_object *jso, long e, int second, struct json_object *parent,
+                    const char *key)
 {
 	char path[4096], *all, *item, *save = NULL;
 	size_t n = tab[e].depth, k = n, len = 0;
@@ -203,6 +209,14 @@ static int do_edits(struct trav *me, struct json_object *jso, long e)
 		*colon = 0;
 		op = colon + 1;
 		if (strcmp(item, path) != 0) continue;
+		if (second) {
+			if (op[0] == 'S' && parent && key && json_object_get_type(parent) == json_type_object) {
+				json_object_object_del(parent, key);      /* frees jso and key: neither is used again */
+				changed = 1;
+				break;
+			}
+			continue;
+		}
 		if (isarr && op[0] == 'd') {
 			size_t cnt = (size_t)strtoull(op + 1, NULL, 10), l = json_object_array_length(jso);
 			if (cnt > l) cnt = l;
@@ -308,7 +322,10 @@ static int cb_common(int id, struct json_object *jso, int flags, struct json_obj
 	fputs(" | ", f);
 	if (flags == 0 && jso && me->edits && ntr == 1) {
 		long e = tab_find(jso);
-		if (e >= 0 && do_edits(me, jso, e)) reindex();
+		if (e >= 0 && do_edits(me, jso, e, 0, parent, key)) reindex();
+	} else if (flags == JSON_C_VISIT_SECOND && jso && me->edits && ntr == 1 && strstr(me->edits, ":S")) {
+		long e = tab_find(jso);
+		if (e >= 0 && do_edits(me, jso, e, 1, parent, key)) reindex();
 	}
 	k = ++me->ncalls;
 	/* the traversals this callback runs before it returns from its k-th call */
